@@ -1,6 +1,11 @@
 """Source of MANIFEST.json (python engine/manifest_gen.py)."""
 REALS = "C doubles / numpy float64 are decided as exact reals (rounding is outside the claim); geometry is concrete and listed in the evidence; "
 CHECKS = [
+    {"id": "C10", "engine": "llsym+llfp+symnp",
+     "technique": "symbolic execution (IR of get_free_energy/get_entropy/get_heat_capacity/phpy_get_thermal_properties, Python mode_* and ThermalProperties) with uninterpreted exp/log/sinh/cosh/tanh/log1p unified by solver-proved argument equality; NRA identities; IEEE-754 binary64 execution of the IR and of mode_* decided by cvc5 QF_FP for NaN/inf",
+     "text": "Bounded symbolic model checking: C kernel == Python == documented closed forms for all T>0, hv>0 (quantum, classical); kernel accumulation/cutoff/T>0 rule for all temperatures, frequencies, cutoff on small shapes; ThermalProperties wrapper (pretend_real x band_indices x classical x cutoff, lang C and Py) equals the documented weighted sums for all frequencies in boxes and symbolic T, T=0 => F=ZPE, S=Cv=0; Float64: no NaN/inf for T in [1e-2,1e4] K, hv in [1e-6,1] eV.",
+     "design_ref": "DESIGN.md 3/C10",
+     "note": "transcendentals uninterpreted apart from stated lemma instances (true identities, each side condition solver-proved); FP query relies on stated libm contracts; S=-dF/dT, monotonicity and limits are calculus and not covered."},
     {"id": "C02", "engine": "llsym+symnp",
      "technique": "symbolic execution (LLVM IR of dynmat.c through the real glue; Python reference natively on z3-backed arrays); LRA queries vs Python reference and vs an exact Fourier-sum oracle of a symbolic interaction model",
      "text": "Bounded symbolic model checking: for each listed geometry/storage/layout every force-constant (or interaction-model) entry is a solver variable; z3 decides that the compiled kernel equals the Python reference and the exact lattice Fourier sum at all commensurate q (any range) and at listed generic q when the model vectors are unique minimum images.",
@@ -23,11 +28,12 @@ CHECKS = [
      "note": REALS + "clang -O0 IR semantics as implemented by engine/llsym.py, validated at start against the compiled code; nanobind itself replaced by a stand-in header."},
 ]
 _NA = "not yet claimed in this revision (check under construction; see DESIGN.md section 3)"
-NOT_APPLICABLE = [{"property_id": "C%02d" % k, "reason": _NA} for k in range(1, 21) if k not in (2, 3, 6, 7)]
+NOT_APPLICABLE = [{"property_id": "C%02d" % k, "reason": _NA} for k in range(1, 21) if k not in (2, 3, 6, 7, 10)]
 for n in NOT_APPLICABLE:
     if n["property_id"] == "C18":
         n["reason"] = "whole-program CLI runs through argparse, file I/O and yaml with string-typed settings: no solver-decidable core (DESIGN.md section 4)"
 ENGINES = [
+    {"name": "llfp", "path": "engine/llfp.py", "serves_properties": ["C10"], "kind_free_text": "binary64 mode of the IR interpreter (z3 FloatingPoint terms, libm contracts), queries decided by the cvc5 binary"},
     {"name": "llsym", "path": "engine/llsym.py", "serves_properties": ["C02", "C03", "C06", "C07"], "kind_free_text": "symbolic interpreter for clang-14 -O0 LLVM IR of c/*.c and c/_phonopy.cpp over z3 Int/Real with bounds/overflow/uninitialised-read obligations"},
     {"name": "symnp", "path": "engine/symnp.py", "serves_properties": ["C02", "C03", "C06", "C07"], "kind_free_text": "phonopy's own numpy code executed natively on object arrays of z3-backed scalars (np proxy per module), decision-replay forking"},
     {"name": "shim", "path": "engine/shim.py", "serves_properties": ["C02", "C03", "C06", "C07"], "kind_free_text": "compiled real C sources + unmodified _phonopy.cpp glue behind a generic ctypes caller: concrete replay target"},
